@@ -242,6 +242,31 @@ def run(prog: Program, chk: Check):
         vals = [v.replace(next((k for k, v_ in me.items() if v_ == "$name"), "name"), "$name") for v in vals]
         okp = bool(vals) and all(v.endswith("[:].copy()") or v.startswith("bytes(") for v in vals)
         S.decide(okp, f"{MB}|encoder-only:{atom.replace('$f1', 'ftype')}", where(enc, le), f"{atom}: encoded as list/bytes of ints {vals}", f"{atom}: encoder-only case produces {vals}, not an int list / bytes")
+    # what the decoder stores into the object is the dictionary's value itself: any "defaulting" (`data[name] or 0`,
+    # `[x or 0 for x in ...]`) turns a legitimate falsy value (-0.0) into something else
+    dparams = decf.params()
+    dpar = dparams[1] if len(dparams) > 1 else "data"
+    dname = next((k_ for k_, v_ in md.items() if v_ == "$name"), None)
+    nst, badst = 0, []
+    for n in walk_local(ld):
+        vals = []
+        if isinstance(n, ast.Call) and isinstance(n.func, ast.Name) and n.func.id == "setattr" and len(n.args) == 3:
+            vals.append(n.args[2])
+        elif isinstance(n, ast.Assign) and any(isinstance(t, ast.Subscript) and isinstance(t.slice, ast.Slice) and isinstance(t.value, ast.Call) and norm(t.value.func) == "getattr" for t in n.targets):
+            vals.append(n.value)
+        for v in vals:
+            nst += 1
+            vv = guards.subst(v, guards.copy_map(decf.node))
+            if isinstance(vv, ast.Name):  # `value = data[name]; setattr(obj, name, value)`
+                from ..dataflow import definitions as _d10
+                ds_ = [r_ for k_, r_ in _d10(decf.node, vv.id) if k_ == "assign"]
+                if len(ds_) == 1 and len(_d10(decf.node, vv.id)) == 1:
+                    vv = ds_[0]
+            if not (isinstance(vv, ast.Subscript) and path_of(vv.value) == dpar and dname is not None and norm(vv.slice) == dname):
+                badst.append(norm(v)[:60])
+    S.decide(nst >= 2 and not badst, f"{MB}|decoder-stores-verbatim", where(decf, ld), f"{nst} store(s) of `{dpar}[{dname}]` itself into the object",
+             f"_from_dict stores a transformed value instead of `{dpar}[{dname}]`: {badst} (a falsy value such as -0.0 would be replaced)")
+
     je = prog.func(MB, "RTMAJSONEncoder.default")
     tests = [norm(n.test) for n in walk_local(je.node) if isinstance(n, ast.If)]
     need = {"bytes": any("bytes" in t for t in tests), "ctypes.Array": any("ctypes.Array" in t for t in tests), "MessageBase": any("MessageBase" in t or "to_dict" in t for t in tests)}
